@@ -39,6 +39,8 @@ func main() {
 		switch os.Args[2] {
 		case "merge":
 			oracleMerge(os.Args[3], os.Args[4])
+		case "queue":
+			oracleQueue(os.Args[3], os.Args[4])
 		default:
 			fmt.Fprintln(os.Stderr, "unknown stream", os.Args[2])
 			os.Exit(2)
@@ -55,6 +57,8 @@ func execOps(stream, in, outp string) {
 	switch stream {
 	case "merge":
 		s = newMergeSUT()
+	case "queue":
+		s = newQueueSUT(0)
 	default:
 		fmt.Fprintln(os.Stderr, "unknown stream", stream)
 		os.Exit(2)
@@ -74,6 +78,8 @@ func gen(stream string, seed uint64, n int, outp string) {
 		switch stream {
 		case "merge":
 			genMergeCase(r, c, out)
+		case "queue":
+			genQueueCase(r, c, out)
 		default:
 			fmt.Fprintln(os.Stderr, "unknown stream", stream)
 			os.Exit(2)
